@@ -343,13 +343,11 @@ func explainSelectWithUnionQuery(sb *strings.Builder, n *ast.SelectWithUnionQuer
 		fmt.Fprintf(sb, "%s Set\n", indent)
 	}
 	// FORMAT clause - check if any SelectQuery has Format set
-	// Skip this when inside CreateQuery context, as Format is output at CreateQuery level
-	if !inCreateQueryContext {
-		for _, sel := range n.Selects {
-			if sq, ok := sel.(*ast.SelectQuery); ok && sq.Format != nil {
-				Node(sb, sq.Format, depth+1)
-				break
-			}
+	// (CreateQuery outputs FORMAT at its own level and renders the SELECT through withoutFormat)
+	for _, sel := range n.Selects {
+		if sq, ok := sel.(*ast.SelectQuery); ok && sq.Format != nil {
+			Node(sb, sq.Format, depth+1)
+			break
 		}
 	}
 	// When SETTINGS comes AFTER FORMAT, output Set last (check SelectWithUnionQuery first, then SelectQuery)
@@ -621,13 +619,11 @@ func countSelectUnionChildren(n *ast.SelectWithUnionQuery) int {
 		}
 	}
 	// Check if any SelectQuery has Format set
-	// Skip this when inside CreateQuery context, as Format is output at CreateQuery level
-	if !inCreateQueryContext {
-		for _, sel := range n.Selects {
-			if sq, ok := sel.(*ast.SelectQuery); ok && sq.Format != nil {
-				count++
-				break
-			}
+	// (CreateQuery outputs FORMAT at its own level and renders the SELECT through withoutFormat)
+	for _, sel := range n.Selects {
+		if sq, ok := sel.(*ast.SelectQuery); ok && sq.Format != nil {
+			count++
+			break
 		}
 	}
 	// Count union-level SETTINGS (either before or after FORMAT)
